@@ -22,6 +22,7 @@
 #include	<stdlib.h>
 #include	<string.h>
 #include	<limits.h>
+#include	<float.h>
 #include	<math.h>
 
 #include	"sndfile.h"
@@ -313,7 +314,8 @@ float32_le_write (float in, unsigned char *out)
 
 	memset (out, 0, sizeof (int)) ;
 
-	if (fabs (in) < 1e-30)
+	/* Zero and denormals, which the code below cannot represent. */
+	if (fabs (in) < FLT_MIN)
 		return ;
 
 	if (in < 0.0)
@@ -348,7 +350,8 @@ float32_be_write (float in, unsigned char *out)
 
 	memset (out, 0, sizeof (int)) ;
 
-	if (fabs (in) < 1e-30)
+	/* Zero and denormals, which the code below cannot represent. */
+	if (fabs (in) < FLT_MIN)
 		return ;
 
 	if (in < 0.0)
